@@ -873,7 +873,7 @@ Definition Sim (s : st) (k : chk) : Prop :=
   (forall g m, In m (got (gens s g)) -> In (g, m) (k_writes k)).
 
 Definition logs (l : label) : bool :=
-  match l with LSHook _ | LLogEnq _ | LLogPClose _ | LLogObs _ | LLogSrv _ _ | LLogReply _ | LLogFail _ | LLogDial _ => true | _ => false end.
+  match l with LSHook _ | LLogEnq _ | LLogPClose _ | LLogObs _ | LLogSrv _ _ | LLogReply _ | LLogFail _ | LLogDial _ | LLogCliClose _ | LLogCFlag _ => true | _ => false end.
 
 Lemma Sim_silent s l s' k : Inv0 s -> Sim s k -> logs l = false -> step true s l = Some s' -> log s' = log s /\ Sim s' k.
 Proof.
@@ -972,6 +972,16 @@ Proof.
       destruct I1 as (HA & HC). apply HC; [lia|]. intros EC. apply J4 in EC. lia. }
     cbn [chk_step]. rewrite S1, Nat.eqb_refl, E1. split; [reflexivity|].
     unfold Sim; cbn. auto 10.
+  - (* LLogCliClose *)
+    apply andb_prop in Heqb. destruct Heqb as [_ D].
+    assert (E1 : memn g (k_pclosed k) = true). { rewrite S2. apply memn_In. auto. }
+    cbn [chk_step]. rewrite E1. split; [reflexivity|]. unfold Sim; cbn. auto 10.
+  - (* LLogCFlag *)
+    assert (E1 : negb (closedF s) || memn g (k_pclosed k) = true).
+    { destruct (closedF s) eqn:C; [|reflexivity]. cbn. rewrite S2. apply memn_In, J3, J2.
+      destruct I1 as (HA & _). unfold is_cur in Heqb. destruct (cur s) as [c|]; [|discriminate].
+      apply Nat.eqb_eq in Heqb. subst c. destruct HA as [HA _]. congruence. }
+    cbn [chk_step]. rewrite E1. split; [reflexivity|]. unfold Sim; cbn. auto 10.
 Qed.
 
 Lemma Inv4_init : Inv4 init.
@@ -1181,3 +1191,19 @@ Proof.
   - destruct H' as (A & _ & B & B'). auto.
 Qed.
 
+
+(* ------------------------------------------------------------------------------------------------ *)
+(* as long as the client itself does not give up a connection (no TarsClient.Close, no idle close) it only closes
+   connections the peer has closed (or announced to close: the harness logs both as EPeerClose) *)
+Lemma Inv4_run ls : forall s s', InvX s -> Inv4 s -> Forall (fun l => client_close l = false) ls -> run true s ls = Some s' -> Inv4 s'.
+Proof.
+  induction ls as [|l r IH]; cbn [run]; intros s s' I J F R. { now injection R as <-. }
+  destruct (step true s l) as [s1|] eqn:E; [|discriminate]. inversion F as [|? ? Fl Fr]; subst.
+  eapply (IH s1); eauto. { eapply InvX_step; eauto. } destruct I as ((_ & _ & HN) & I3). eapply Inv4_step; eauto.
+Qed.
+
+Theorem dead_only_after_peer_close ls s g : run true init ls = Some s -> Forall (fun l => client_close l = false) ls ->
+  dead (gens s g) = true -> peerc (gens s g) = true /\ In g (lpc s).
+Proof.
+  intros R F D. destruct (Inv4_run ls init s InvX_init Inv4_init F R) as (_ & J2 & J3 & _). split; auto.
+Qed.
